@@ -99,6 +99,11 @@ type c07MulCase struct {
 }
 
 func c07GenMul(t *rapid.T) c07MulCase {
+	if rapid.IntRange(0, 11).Draw(t, "engineered-output") == 0 {
+		if k, u, cls, ok := h.C07EngineeredPair(t, "eo"); ok {
+			return c07MulCase{Scalar: k, U: u, SCls: "engineered", UCls: cls}
+		}
+	}
 	k, kc := h.C07Scalar(t, "k")
 	u, uc := h.C07U(t, "u")
 	return c07MulCase{Scalar: k, U: u, SCls: kc, UCls: uc}
@@ -139,6 +144,18 @@ func c07CheckMul(c c07MulCase) h.Result {
 	}
 	if !bytes.Equal(ka[:], k) || !bytes.Equal(ua[:], u) {
 		r.Fail("x25519.ScalarMult:input-modified", "k=%x u=%x", k, u)
+	}
+	// the destination may be the scalar or the point (in-place use, e.g. the
+	// RFC 7748 iteration k, u = X25519(k, u), k)
+	al := ka
+	x25519.ScalarMult(&al, &al, &ua)
+	if !bytes.Equal(al[:], want) {
+		r.Fail("x25519.ScalarMult(dst-is-the-scalar):wrong-output", "k=%x u=%x got=%x want=%x", k, u, al[:], want)
+	}
+	al = ua
+	x25519.ScalarMult(&al, &ka, &al)
+	if !bytes.Equal(al[:], want) {
+		r.Fail("x25519.ScalarMult(dst-is-the-point):wrong-output", "k=%x u=%x got=%x want=%x", k, u, al[:], want)
 	}
 
 	// checked entry point: error exactly when the result is all zero
@@ -489,6 +506,17 @@ func c07CheckEd(c c07EdCase) h.Result {
 		pk, err := x25519.X25519(xpriv, x25519.Basepoint)
 		if err != nil || !bytes.Equal(pk, xpub) {
 			r.Fail("x25519.EdKeyConversion:pair-mismatch", "%s seed=%x X25519(priv,9)=%x pub=%x err=%v", src, seed, pk, xpub, err)
+		}
+		// results are the caller's: converting OTHER keys afterwards must not
+		// change what was returned before
+		other := ed25519.NewKeyFromSeed(bytes.Repeat([]byte{0x5c}, 32))
+		for i := 0; i < 3; i++ {
+			_ = x25519.EdPrivateKeyToX25519(other)
+			_, _ = x25519.EdPublicKeyToX25519(other.Public().(ed25519.PublicKey))
+			_, _ = x25519.X25519(wantPriv, x25519.Basepoint)
+		}
+		if !bytes.Equal(xpriv, wantPriv) || !bytes.Equal(xpub, wantPub) || !bytes.Equal(pk, wantPub) {
+			r.Fail("x25519.EdKeyConversion:earlier-result-changed-by-later-calls", "%s seed=%x priv now=%x pub now=%x", src, seed, xpriv, xpub)
 		}
 	}
 	return r.Result()
